@@ -9,3 +9,15 @@ CHECKS = {
              note=NOTE_SYNC + " Proved per-kind semantics: source/union/map/filter/starmap/pluck/flatten/accumulate/slice/partition(no key)/sink; the other kinds are covered by pipeline_dataflow (state = fold of update) plus correspondence and oracle only.",
              design_ref="DESIGN.md 5 C01"),
 }
+CHECKS["C05"] = dict(technique="Coq proof (count-minus-holders preserved exactly by every push; induction on fuel) + differential correspondence + holder-count oracle",
+    text="push_excess: every exception-free push preserves count r - holders r exactly for every counter, DAG and starting world; balance_at_quiescence, count_nonneg, left_pipeline_zero follow for whole runs. Counters, callback log and holder multisets of the real code are compared after every event.",
+    note=NOTE_SYNC + " The per-kind books lemma (kind_books) is proved for source/union/map/starmap/filter/accumulate/slice/unique/flatten/pluck/sink/collect/partition; for sliding_window, zip, combine_latest, zip_latest, partition_unique it needs a state invariant and is NOT proved: those are covered by correspondence and oracle only (partial). collect.flush and the asynchronous nodes are likewise correspondence/oracle only in this check. An entry point with no attached consumer never completes an element (hypothesis entry_has_downstream).",
+    design_ref="DESIGN.md 5 C05")
+CHECKS["C10"] = dict(technique="Coq proof (edges carry (value, metadata) pairs; per-kind list-level metadata semantics) + differential correspondence + contributor oracle",
+    text="pipeline_dataflow over (value, metadata) pairs plus per-kind theorems: one-to-one nodes pass metadata unchanged, flatten attaches it to the last piece, partition passes the concatenation in member order. Flatness is by type in the model; the encoder reports any non-flat metadata delivered by the code.",
+    note=NOTE_SYNC + " Per-kind metadata theorems proved for source/union/map/filter/starmap/pluck/accumulate/slice/flatten/partition(no key); combining nodes (zip, combine_latest, zip_latest, sliding_window, partition_unique, collect) are covered by pipeline_dataflow (state/outputs = fold of update), correspondence and the contributor oracle only.",
+    design_ref="DESIGN.md 5 C10")
+CHECKS["C16"] = dict(technique="Coq proof (status stickiness, failing call frame, count floor invariant) + differential correspondence with fault-injecting symbols + fault oracle",
+    text="exn_reaches_emit (a normal return implies no user function raised anywhere in the cascade), failing_call_changes_nothing, later_as_if_not_offered, cb_never_for_failed / failed_stays_unfired (in directly connected pipelines an emit that raises leaves the failed element's counters >= 1 without scheduling its callback, and no later emit schedules it) for all pipelines, inputs and fault choices (user functions are arbitrary partial functions).",
+    note=NOTE_SYNC + " Fault choices are realised in the correspondence by value-triggered failing symbols (FFailIn etc.). The asynchronous carrier (awaitable of emit / sync()) is exercised only through partition in the C01 family; blocking emit across threads is trusted.",
+    design_ref="DESIGN.md 5 C16")
